@@ -22,6 +22,24 @@ type Node struct {
 	DB       db.KeyValueStore
 	NewState bool
 	Opts     []blockchain.Option
+	Net      *networks.Network // nil: Sepolia
+}
+
+func (n *Node) net() *networks.Network {
+	if n.Net != nil {
+		return n.Net
+	}
+	return &networks.Sepolia
+}
+
+// NewNodeOn is NewNode on a given network configuration (chain id, block-hash format metadata).
+func NewNodeOn(net *networks.Network, store db.KeyValueStore, newState bool, extra ...blockchain.Option) *Node {
+	opts := append([]blockchain.Option{blockchain.WithNewState(newState)}, extra...)
+	return &Node{BC: blockchain.New(store, net, opts...), DB: store, NewState: newState, Opts: opts, Net: net}
+}
+
+func NewBuilderOn(net *networks.Network, newState bool) *Builder {
+	return &Builder{NewNodeOn(net, memory.New(), newState)}
 }
 
 func NewNode(store db.KeyValueStore, newState bool, extra ...blockchain.Option) *Node {
@@ -41,7 +59,7 @@ func (n *Node) Restart(graceful bool) error {
 			return err
 		}
 	}
-	n.BC = blockchain.New(n.DB, &networks.Sepolia, n.Opts...)
+	n.BC = blockchain.New(n.DB, n.net(), n.Opts...)
 	return nil
 }
 
